@@ -61,11 +61,16 @@ class RecLog(object):
 
 
 class Session(object):
-    def __init__(self, transport, encoding=None, errors='strict', logs=('logfile', 'logfile_read', 'logfile_send'), maxread=65536):
+    def __init__(self, transport, encoding=None, errors='strict', logs=('logfile', 'logfile_read', 'logfile_send'), maxread=65536, logfile_by_ctor=False):
         self.transport = transport
         self.encoding = encoding
         self.d = None
         kw = dict(encoding=encoding, codec_errors=errors, timeout=5, maxread=maxread)
+        self.logs = {}
+        if logfile_by_ctor and 'logfile' in logs:
+            # the documented constructor argument of every spawn class, instead of assigning the attribute afterwards
+            self.logs['logfile'] = RecLog()
+            kw['logfile'] = self.logs['logfile']
         if transport in ('fd', 'socket'):
             self.a, self.b = socket.socketpair()
             self.b.setblocking(False)
@@ -84,8 +89,9 @@ class Session(object):
                 self.p = popen_spawn.PopenSpawn([common.PY, '-c', CHILD, c, a, 'popen'], **kw)
             self.cw = os.open(c, os.O_WRONLY); self.ar = os.open(a, os.O_RDONLY)
             assert os.read(self.ar, 1) == b'R'
-        self.logs = {}
         for name in logs:
+            if name in self.logs:
+                continue
             self.logs[name] = RecLog()
             setattr(self.p, name, self.logs[name])
         self.sent_total = 0
